@@ -64,6 +64,10 @@ func (a *atomEval) eval(cond ssa.Value) (bool, bool) {
 	if bo, ok := cond.(*ssa.BinOp); ok && (bo.Op == token.EQL || bo.Op == token.NEQ) {
 		pol := bo.Op == token.EQL
 		x, y := bo.X, bo.Y
+		// constants may be written on either side
+		if _, isC := x.(*ssa.Const); isC {
+			x, y = y, x
+		}
 		if isLoadOfField(x, a.mutType) {
 			if k, ok := kit.ConstInt(y); ok && k == a.deleteK {
 				return res("isDelete", pol)
